@@ -986,19 +986,86 @@ theorem setIdentity_is_trace (s : State) (p cid nid : Nat) :
       · exact ⟨lockDirEvs p .setId ++ [.idRead p, .idWrite p cid nid, .unlock p], by simp [Lock.run, List.foldl_append]⟩
       · exact ⟨lockDirEvs p .setId, rfl⟩
 
-/-- **What the real `SetIdentity` guarantees.**  With a different non-zero identity stored it leaves the
-directory alone — but, because the deferred `err = unlockDir(storageDir)` overwrites the result, it REPORTS
-SUCCESS (`nil`) instead of `ErrIdentityAlreadySet`.  The stored value is the one thing that is right. -/
+/-- **What `SetIdentity` guarantees about the directory**: a stored identity with both ids non-zero survives
+every call, whatever the arguments. -/
 theorem setIdentity_guarantee (s : State) (p cid nid : Nat) (h : s.stored.1 ≠ 0 ∧ s.stored.2 ≠ 0) :
     (setIdentity s p cid nid).state.stored = s.stored := by
   obtain ⟨evs, he⟩ := setIdentity_is_trace s p cid nid
   rw [he]; exact identity_immutable s evs h
 
-/-- the mis-report, on a concrete input: stored `(1,2)`, `SetIdentity(dir, 3, 4)` returns nil although the body
-computed `ErrIdentityAlreadySet`; the directory still says `(1,2)` and the lock is released -/
-theorem setIdentity_mismatch_reports_ok :
+/-- an uninterrupted `lockDir` on an unlocked directory succeeds -/
+theorem lockDir_free (s : State) (p : Nat) (job : Job) (hp : (s.procs p).pc = .idle) (hl : s.lock = none) :
+    ((Lock.run s (lockDirEvs p job)).procs p).pc = .holding s.next ∧
+    (Lock.run s (lockDirEvs p job)).stored = s.stored := by
+  simp [lockDirEvs, Lock.run, Lock.step, hp, hl, State.setProc]
+
+theorem unlock_releases (t : State) (p i : Nat) (h : (t.procs p).pc = .holding i) :
+    (Lock.step t (.unlock p)).lock = none := by
+  simp [Lock.step, h]
+
+/-- the result and the lock after a call of `SetIdentity` by an idle process on an unlocked directory -/
+theorem setIdentity_unlocked (s : State) (p cid nid : Nat) (hc : cid ≠ 0) (hn : nid ≠ 0)
+    (hp : (s.procs p).pc = .idle) (hl : s.lock = none) :
+    (setIdentity s p cid nid).returned = bodyResult s.stored cid nid ∧
+    (setIdentity s p cid nid).state.lock = none := by
+  obtain ⟨h1, h2⟩ := lockDir_free s p .setId hp hl
+  have hh : isHolding ((Lock.run s (lockDirEvs p .setId)).procs p).pc = true := by rw [h1]; rfl
+  unfold setIdentity
+  rw [if_neg hc, if_neg hn]
+  dsimp only
+  rw [if_pos hh]
+  refine ⟨by rw [h2], ?_⟩
+  show (Lock.step (Lock.step (Lock.step _ (.idRead p)) (.idWrite p cid nid)) (.unlock p)).lock = none
+  apply unlock_releases _ p s.next
+  apply holding_until_unlock _ _ _ _ _ (by intro h; cases h)
+  exact holding_until_unlock _ _ _ _ h1 (by intro h; cases h)
+
+/-- **and what it reports** (after the repair of the deferred unlock in storage.go): on a directory that
+stores a non-zero identity, `SetIdentity(cid, nid)` with non-zero ids returns nil exactly when the ids are the
+stored ones and `ErrIdentityAlreadySet` otherwise; the stored identity is unchanged and the lock released. -/
+theorem setIdentity_mismatch_reports_alreadySet (s : State) (p cid nid : Nat) (hc : cid ≠ 0) (hn : nid ≠ 0)
+    (hp : (s.procs p).pc = .idle) (hl : s.lock = none) (hs : s.stored.1 ≠ 0 ∧ s.stored.2 ≠ 0) :
+    (setIdentity s p cid nid).returned = (if cid = s.stored.1 ∧ nid = s.stored.2 then .ok else .alreadySet) ∧
+    (setIdentity s p cid nid).state.stored = s.stored ∧ (setIdentity s p cid nid).state.lock = none := by
+  obtain ⟨h1, h2⟩ := setIdentity_unlocked s p cid nid hc hn hp hl
+  refine ⟨?_, setIdentity_guarantee s p cid nid hs, h2⟩
+  rw [h1]; unfold bodyResult
+  by_cases he : cid = s.stored.1 ∧ nid = s.stored.2
+  · rw [if_pos he, if_pos he]
+  · rw [if_neg he, if_neg he, if_pos hs]
+
+/-- zero ids are refused before anything is touched -/
+theorem setIdentity_zero (s : State) (p cid nid : Nat) (h : cid = 0 ∨ nid = 0) :
+    (setIdentity s p cid nid).returned ≠ .ok ∧ (setIdentity s p cid nid).state.stored = s.stored ∧
+    (setIdentity s p cid nid).state.lock = s.lock := by
+  unfold setIdentity
+  by_cases hc : cid = 0
+  · simp [hc]
+  · have hn : nid = 0 := by rcases h with h | h; exact absurd h hc; exact h
+    simp [hc, hn]
+
+/-- on a directory without identity the first call stores it -/
+theorem setIdentity_fresh (s : State) (p cid nid : Nat) (hc : cid ≠ 0) (hn : nid ≠ 0)
+    (hp : (s.procs p).pc = .idle) (hl : s.lock = none) (hs : s.stored = (0, 0)) :
+    (setIdentity s p cid nid).returned = .ok ∧ (setIdentity s p cid nid).state.stored = (cid, nid) := by
+  refine ⟨?_, ?_⟩
+  · rw [(setIdentity_unlocked s p cid nid hc hn hp hl).1]
+    unfold bodyResult; simp [hs]
+  · obtain ⟨h1, h2⟩ := lockDir_free s p .setId hp hl
+    have hh : isHolding ((Lock.run s (lockDirEvs p .setId)).procs p).pc = true := by rw [h1]; rfl
+    unfold setIdentity
+    rw [if_neg hc, if_neg hn]
+    dsimp only
+    rw [if_pos hh]
+    show (Lock.step (Lock.step (Lock.step _ (.idRead p)) (.idWrite p cid nid)) (.unlock p)).stored = (cid, nid)
+    generalize Lock.run s (lockDirEvs p .setId) = t at h1 h2
+    simp [Lock.step, h1, State.setProc, h2, hs, hc, hn]
+
+/-- concrete instance (the input on which the unrepaired code returned nil): stored `(1,2)`, `SetIdentity(dir, 3, 4)` -/
+example :
     let r := setIdentity { stored := (1, 2) } 0 3 4
-    r.returned = .ok ∧ r.body = some .alreadySet ∧ r.state.stored = (1, 2) ∧ r.state.lock = none := by decide
+    r.returned = .alreadySet ∧ r.state.stored = (1, 2) ∧ r.state.lock = none := by decide
+example : (setIdentity { stored := (1, 2) } 0 1 2).returned = .ok := by decide
 
 /-- a held lock makes `SetIdentity` fail with `ErrLockExists` and change nothing -/
 theorem setIdentity_locked (s : State) (p cid nid i : Nat) (hc : cid ≠ 0) (hn : nid ≠ 0)
@@ -1076,7 +1143,9 @@ in any way) and every interleaving of lock/identity operations on a directory:
    connection is processed by the process it was dialled to;
 4. at most one process holds the directory lock at a time;
 5. a stored identity with both ids non-zero never changes;
-6. `New` succeeds exactly on a directory with both ids non-zero. -/
+6. `New` succeeds exactly on a directory with both ids non-zero;
+7. `SetIdentity` with non-zero ids on an unlocked directory that stores a non-zero identity returns nil exactly
+   for the stored ids and `ErrIdentityAlreadySet` otherwise, and never changes what is stored. -/
 def C20_statement : Prop :=
   (∀ (w : World) (evs : List Conn.Ev), Fresh w →
     (∀ p ∈ (Conn.run w evs).processed, p.lib = true → p.listener = p.intended ∧ p.src.cid = p.listener.cid) ∧
@@ -1088,10 +1157,14 @@ def C20_statement : Prop :=
   (∀ (s : State) (evs : List Lock.Ev), Quiet s →
     ∀ p q i j, ((Lock.run s evs).procs p).pc = .holding i → ((Lock.run s evs).procs q).pc = .holding j → p = q) ∧
   (∀ (s : State) (evs : List Lock.Ev), s.stored.1 ≠ 0 ∧ s.stored.2 ≠ 0 → (Lock.run s evs).stored = s.stored) ∧
-  (∀ s : State, (newNode s).1 = .ok ↔ (s.stored.1 ≠ 0 ∧ s.stored.2 ≠ 0))
+  (∀ s : State, (newNode s).1 = .ok ↔ (s.stored.1 ≠ 0 ∧ s.stored.2 ≠ 0)) ∧
+  (∀ (s : State) (p cid nid : Nat), cid ≠ 0 → nid ≠ 0 → (s.procs p).pc = .idle → s.lock = none →
+    s.stored.1 ≠ 0 ∧ s.stored.2 ≠ 0 →
+    (setIdentity s p cid nid).returned = (if cid = s.stored.1 ∧ nid = s.stored.2 then .ok else .alreadySet) ∧
+    (setIdentity s p cid nid).state.stored = s.stored)
 
 theorem C20 : C20_statement := by
-  refine ⟨fun w evs hw => ⟨?_, ?_, ?_, ?_⟩, ?_, ?_, ?_⟩
+  refine ⟨fun w evs hw => ⟨?_, ?_, ?_, ?_⟩, ?_, ?_, ?_, ?_⟩
   · intro p hp hlib
     obtain ⟨a, b⟩ := (no_cross_cluster_influence w hw evs).1 p hp hlib
     exact ⟨b.symm, a⟩
@@ -1108,6 +1181,9 @@ theorem C20 : C20_statement := by
     exact (lock_exclusive s hq evs).1
   · exact fun s evs h => identity_immutable s evs h
   · exact fun s => (new_requires_identity s).1
+  · intro s p cid nid hc hn hp hl hs
+    obtain ⟨a, b, _⟩ := setIdentity_mismatch_reports_alreadySet s p cid nid hc hn hp hl hs
+    exact ⟨a, b⟩
 
 end C20
 end Raft
@@ -1127,7 +1203,9 @@ end Raft
 #print axioms Raft.C20.identity_immutable
 #print axioms Raft.C20.identity_set_once
 #print axioms Raft.C20.setIdentity_guarantee
-#print axioms Raft.C20.setIdentity_mismatch_reports_ok
+#print axioms Raft.C20.setIdentity_mismatch_reports_alreadySet
+#print axioms Raft.C20.setIdentity_zero
+#print axioms Raft.C20.setIdentity_fresh
 #print axioms Raft.C20.setIdentity_locked
 #print axioms Raft.C20.new_requires_identity
 #print axioms Raft.C20.serve_holds_lock
